@@ -66,6 +66,8 @@ def run(ctx, repo):
         'shorter than the distance, which makes the bracketing rows differ).  Betweenness and monotonicity along the distance axis are numeric and not decided.')
     ctx.rule('R1', 'no unguarded division by a difference of index-symmetric quantities after find_row_by_distance')
     ctx.rule('R2', 'factor and speed interpolations are convex combinations with the shorter event at t = 0')
+    ctx.rule('R4', 'get_distance scales the quantity by the unit before truncating')
+    ctx.rule('R5', 'a neighbour row without a distance counts as an end of the table (nearest end is used)')
     ctx.rule('R3', 'data: row "50" present per gender; running distances and standards positive')
     frd = mod.func('AgeGrader.find_row_by_distance')
     # can the two indices be equal?  (chained assignment of both from one value)
@@ -212,6 +214,44 @@ def run(ctx, repo):
     else:
         ctx.finding('R2', '%s::AgeGrader.find_row_by_distance::pfac' % AGE, AGE, frd.lineno,
                     'pfac is not (d - table[fx][x]) / (table[fx1][x] - table[fx][x]): %s' % [unparse(v) for v in pf])
+    # ---- R4 get_distance: the quantity is scaled before it is truncated (N.dK spellings keep their fraction)
+    umod = repo.module('athlib/utils.py')
+    gd = umod.func('get_distance')
+    n_unit = 0
+    for r in ast.walk(gd):
+        if isinstance(r, ast.Return) and r.value is not None and 'qty' in ast.unparse(r.value):
+            n_unit += 1
+            v = r.value
+            if isinstance(v, ast.BinOp) and isinstance(v.op, ast.Mult):
+                sides = [v.left, v.right]
+                trunc = [x for x in sides if isinstance(x, ast.Call) and call_name(x) in ('int', 'floor', 'trunc', 'round') and 'qty' in ast.unparse(x)]
+                if trunc:
+                    ctx.finding('R4', 'athlib/utils.py::get_distance::%s' % unparse(v), 'athlib/utils.py', r.lineno,
+                                'get_distance truncates the quantity before scaling it (%s): the fraction of a spelling such as 10.5K is dropped, '
+                                'so 10.5K is graded as 10000 m and the open best no longer increases with the distance' % unparse(v), '10.5K')
+                    continue
+            if isinstance(v, ast.Call) and call_name(v) == 'int':
+                ctx.ok('R4', 'get_distance: %s scales before truncating' % unparse(v))
+    ctx.floor('unit arms of get_distance', n_unit, 5)
+    # ---- R5 a neighbour without a distance (the field row before "50", or a code get_distance cannot read) is an end of the table
+    want = {'shorter': 'longer', 'longer': 'shorter'}
+    found = {}
+    for n in ast.walk(cf):
+        if isinstance(n, ast.If) and isinstance(n.test, ast.Compare) and isinstance(n.test.ops[0], ast.Is) \
+                and isinstance(n.test.comparators[0], ast.Constant) and n.test.comparators[0].value is None and isinstance(n.body[-1], ast.Return):
+            l = ast.unparse(n.test.left)
+            rv = ast.unparse(n.body[-1].value) if n.body[-1].value is not None else ''
+            for side, other in want.items():
+                if side in l and 'distance' in l and other in rv and 'factor' in rv:
+                    found[side] = True
+    for side, other in want.items():
+        if found.get(side):
+            ctx.ok('R5', 'a %s neighbour without a distance returns the %s neighbour\'s factor' % (side, other))
+        else:
+            ctx.finding('R5', '%s::AgeGrader.calculate_factor::%s neighbour without a distance' % (AGE, side), AGE, cf.lineno,
+                        'when the %s neighbour has no distance (below 50 m it is the field row that precedes "50" in the table) the %s '
+                        'neighbour\'s factor must be returned; the guard `if distance_%s is None: return factor_%s` is gone, so the factor '
+                        'is blended with a throwing event\'s' % (side, other, side, other), "wma_age_factor('m', 60, '20')")
     # ---- R3 data
     n_rows = 0
     for rel in TABLES:
